@@ -8,14 +8,18 @@ package c17
 
 import (
 	"bytes"
+	"encoding/binary"
 	"fmt"
+	"io"
 	"net"
 	"sync"
 	"testing"
 	"time"
 
+	"github.com/gogo/protobuf/proto"
 	"github.com/tendermint/tendermint/libs/log"
 	"github.com/tendermint/tendermint/p2p/conn"
+	tmp2p "github.com/tendermint/tendermint/proto/tendermint/p2p"
 	"pgregory.net/rapid"
 
 	"verif/lib"
@@ -141,6 +145,34 @@ func lostSummary(chans []*chanSpec, rs *recvSide) string {
 
 const zeroLenFinding = "C17-zero-length-message-lost"
 
+// writeRawPacket writes one length-delimited p2p Packet carrying a PacketMsg, as the wire format defines it
+// (uvarint length, then the protobuf encoding) — independent of MConnection's own sending code.
+func writeRawPacket(w io.Writer, chID byte, eof bool, data []byte) error {
+	pkt := &tmp2p.Packet{Sum: &tmp2p.Packet_PacketMsg{PacketMsg: &tmp2p.PacketMsg{ChannelID: int32(chID), EOF: eof, Data: data}}}
+	body, err := proto.Marshal(pkt)
+	if err != nil {
+		panic(err)
+	}
+	var hdr [binary.MaxVarintLen64]byte
+	n := binary.PutUvarint(hdr[:], uint64(len(body)))
+	_, err = w.Write(append(hdr[:n:n], body...))
+	return err
+}
+
+// bucket coarsens a byte count for the class histogram.
+func bucket(n int) int {
+	switch {
+	case n <= 0:
+		return 0
+	case n <= 1024:
+		return 1024
+	case n <= 4096:
+		return 4096
+	default:
+		return 1 << 20
+	}
+}
+
 func genSize(t *rapid.T, payload, recvCap int, label string) int {
 	cands := []int{0, 1, payload - 1, payload, payload + 1, 2 * payload, 2*payload + 1, 3 * payload, recvCap - 1, recvCap, recvCap / 2}
 	var s int
@@ -227,7 +259,7 @@ func TestDelivery(t *testing.T) {
 				total++
 			}
 		}
-		hostile := rapid.SampledFrom([]string{"none", "oversize", "oversize-by-many", "unknown-channel"}).Draw(t, "hostile")
+		hostile := rapid.SampledFrom([]string{"none", "oversize", "oversize-by-many", "unknown-channel", "unterminated-stream", "unterminated-stream"}).Draw(t, "hostile")
 		hostileCh := rapid.IntRange(0, nCh-1).Draw(t, "hostile.ch")
 
 		cfg := conn.DefaultMConnConfig()
@@ -328,6 +360,57 @@ func TestDelivery(t *testing.T) {
 			if !sender.Send(unknownID, fill(9, rapid.IntRange(0, 2*payload).Draw(t, "hostile.size"))) {
 				t.Fatalf("VERIF-INFRA: could not enqueue the unknown-channel message")
 			}
+		case "unterminated-stream":
+			// A peer that never finishes its message: packets WITHOUT the EOF flag, written straight onto the wire (a
+			// well-behaved MConnection cannot produce them). The receiver must cut the connection at the packet that takes
+			// the partial message past the channel's RecvMessageCapacity — not buffer on until an EOF that never comes.
+			c := chans[hostileCh]
+			chunk := rapid.SampledFrom([]int{payload, payload, 1, payload/2 + 1}).Draw(t, "hostile.chunk")
+			if chunk > payload {
+				chunk = payload
+			}
+			prefill := rapid.SampledFrom([]string{"none", "exactly-capacity", "one-below"}).Draw(t, "hostile.prefill")
+			acc, past, refused := 0, 0, false
+			write := func(n int) bool {
+				if err := writeRawPacket(c1, c.id, false, fill(uint64(acc), n)); err != nil {
+					refused = true // the receiver has closed the connection
+					return false
+				}
+				acc += n
+				return true
+			}
+			// optional: walk up to the capacity (or one byte below) first — that much the receiver may hold
+			target := 0
+			switch prefill {
+			case "exactly-capacity":
+				target = c.recvCap
+			case "one-below":
+				target = c.recvCap - 1
+			}
+			for acc < target && !refused {
+				n := chunk
+				if acc+n > target {
+					n = target - acc
+				}
+				write(n)
+			}
+			// then keep streaming. Between the wire and recvPacketMsg sit a 1024-byte bufio.Reader and at most one packet
+			// being read, so once more than that has been ACCEPTED by the pipe after the packet that crossed the capacity,
+			// that packet has provably been handled without an error.
+			const slack = 4096
+			for !refused && past < slack {
+				if !write(chunk) {
+					break
+				}
+				if acc > c.recvCap {
+					past += chunk + 8
+				}
+			}
+			if _, nerr := rs.snapshot(); !refused && nerr == 0 {
+				t.Fatalf("receiver keeps buffering an unterminated message: channel %#x has RecvMessageCapacity %d, %d bytes in non-EOF packets of %d bytes were taken (capacity crossed %d wire bytes ago) and the connection is still up without any error",
+					c.id, c.recvCap, acc, chunk, past)
+			}
+			lib.Class("TestDelivery", "unterminated-prefill:"+prefill, fmt.Sprintf("unterminated-cut-after-bytes-over:%d", bucket(acc-c.recvCap)))
 		}
 		if hostile != "none" {
 			if !rs.waitFor(func(n, nerr int) bool { return nerr > 0 }) {
